@@ -700,7 +700,7 @@ func oracleC20(c *CaseC20) *Failure {
 					// each goroutine walks the items in its own order
 					i := int((splitmix(c.Salt+uint64(g)*7919+uint64(r)*104729) + uint64(k)) % uint64(len(c.Items)))
 					v := c.Items[i]
-					out, _, err, pan := LibEncode(v) // own object, own buffer
+					out, sameObj, err, pan := LibEncode(v) // own object, own buffer
 					if pan != nil {
 						fails[g] = failf("C20/"+v.Type+"/panic", "Encode panicked only when run in parallel: %v", pan)
 						return
@@ -710,7 +710,15 @@ func oracleC20(c *CaseC20) *Failure {
 						return
 					}
 					if err == nil {
-						d, _, derr, dpan := LibDecode(v.Type, refs[i].enc)
+						var d *Value
+						var derr error
+						var dpan any
+						if (g+r+k)%3 == 0 {
+							// the goroutine reuses its OWN message object: the one it has just encoded now receives a message
+							d, _, derr, dpan = LibDecodeInto(sameObj, v.Type, refs[i].enc)
+						} else {
+							d, _, derr, dpan = LibDecode(v.Type, refs[i].enc)
+						}
 						if dpan != nil {
 							fails[g] = failf("C20/"+v.Type+"/panic", "Decode panicked only when run in parallel: %v", dpan)
 							return
@@ -827,6 +835,11 @@ func TestC20(t *testing.T) {
 					// several big frames in flight at once (services and codecs that switch strategy for large inputs)
 					tn = frameOf(rapid.SampledFrom([]string{"sse", "szse", "szse", "sample"}).Draw(rt, "heavymod"))
 					o = GenOpts{Mode: Canonical, MaxList: 25000, BigProb: 1}
+				}
+				if !heavy && c.Goroutines <= 1000 && rapid.IntRange(0, 3).Draw(rt, "arbitrary") == 0 {
+					// any encodable value, not only canonical ones: parts left out, over-long or all-pad text (what the
+					// goroutines get must still be what they get alone)
+					o.Mode = Arbitrary
 				}
 				v, ft := GenValue(rt, tn, o)
 				c.Items = append(c.Items, v)
